@@ -97,7 +97,14 @@ def run(ctx):
     okr = rg is not None and rg[0] == 'agg' and [const_val(x) for x in rg[2]] == [0, 4]
     pb = pu32.calls(r'Vec::<[^>]*>::push$')
     okr = okr and len(pb) == 1 and is_call(peel(pu32.argv(pb[0][0], 1)), r'get_nth_byte$') and peel(peel(pu32.argv(pb[0][0], 1))[2][0]) == ('param', 2)
-    rep.check(r1, okr, 'push_u32', 'push_u32 pushes get_nth_byte(data, i) for i in 0..4: %s' % okr)
+    if not okr:
+        # the same four bytes spelled with the standard library
+        pit = vec_layout(pu32)
+        v_ = peel(pit[0]['value'], unwraps=False) if len(pit) == 1 else None
+        while is_call(v_, r'to_vec$'):
+            v_ = peel(v_[2][0], unwraps=False)
+        okr = len(pit) == 1 and pit[0]['must'] and not pit[0]['in_loop'] and pit[0]['width'] == 4 and is_call(v_, r'<impl u32>::to_be_bytes$') and peel(v_[2][0]) == ('param', 2)
+    rep.check(r1, okr, 'push_u32', 'push_u32 appends the four big-endian bytes of its argument (get_nth_byte(data, i) for i in 0..4, or data.to_be_bytes()): %s' % okr)
 
     r2 = rep.rule('C16-R2', 'precedence of outcomes, as path facts at each emission site: version outside 2..=4 -> PROG_MISMATCH(2,4); else procedure 0 -> SUCCESS (empty); else program 100000 -> portmapper {3: GETPORT/GETADDR, 4: DUMP, other: PROC_UNAVAIL}; else PROG_UNAVAIL', floor=7)
     states, _ = fact_sim(br, track)
@@ -196,7 +203,7 @@ def run(ctx):
     sel = None
     for bi in range(pm.n):
         se = pm.switch_edges(bi)
-        if se and isinstance(se[0], tuple) and se[0][0] == 'discr' and any(ci_field(x, ['ip', 'dst']) for x in walk(se[0]) if isinstance(x, tuple) and x[0] == 'entry'):
+        if se and isinstance(se[0], tuple) and se[0][0] == 'discr' and isinstance(peel(se[0][1]), tuple) and peel(se[0][1])[0] == 'entry' and ci_field(peel(se[0][1]), ['ip', 'dst']):
             sel = (bi, se)
     okn = False
     if sel:
@@ -214,7 +221,8 @@ def run(ctx):
     rep.check(r5, okn, 'netid-by-variant', 'netid "tcp" on the IPv4 arm and "tcp6" on the IPv6 arm: %s' % okn)
     # DUMP list framing: value-follows 1 before each record, 0 at the end
     one = [it for it in pitems if arr_consts(it['value']) == [0, 0, 0, 1]]
-    zero = [it for it in pitems if arr_consts(it['value']) == [0, 0, 0, 0] and it['op'] == 'append']
+    after_loop = pm.reachable(one[0]['block']) if len(one) == 1 else set()
+    zero = [it for it in pitems if arr_consts(it['value']) == [0, 0, 0, 0] and not it['in_loop'] and it['block'] in after_loop]
     rep.check(r5, len(one) == 1 and one[0]['in_loop'] and len(zero) == 1 and not zero[0]['in_loop'], 'dump-list-framing', 'each record is preceded by value-follows=1 (in the loop) and the list ends with 0')
 
     r3 = rep.rule('C16-R3', 'TCP replies are framed by a record mark: 4 bytes big-endian of len(reply) with the last-fragment bit set on the first byte, then the reply; UDP replies are the bare reply; both only in parser state End', floor=4)
@@ -234,13 +242,11 @@ def run(ctx):
             return len(ls) == 1 and calls_in(ls[0][2][0], r'rpc::build_repl$') != []
         ok = ok and all(len_of_body(p['value']) and calls_in(p['value'], r'get_nth_byte$') for p in pushes)
         # index 0 gets the bit: the push with |0x80 is on the edge value 0 of the loop index
-        sel = [bi for bi in range(rt.n) if rt.switch_edges(bi) and calls_in(rt.switch_edges(bi)[0], r'::next$') and rt.switch_edges(bi)[0][0] == 'field']
         dom = rt.dominators()
-        ok0 = False
-        for sb in sel:
-            for (s_, v) in rt.switch_edges(sb)[1]:
-                if v == 0 and s_ in dom[with80[0]['block']] and s_ not in dom[plain[0]['block']]:
-                    ok0 = True
+        eq0 = fact_edges(rt, lambda k, r_, c_: bool(calls_in(k, r'::next$')) and is_eq(r_, c_, 0))
+        ne0 = fact_edges(rt, lambda k, r_, c_: bool(calls_in(k, r'::next$')) and is_ne(r_, c_, 0))
+        ok0 = bool(with80) and bool(plain) and any(s_ in dom[with80[0]['block']] for (_, s_) in eq0) and any(s_ in dom[plain[0]['block']] for (_, s_) in ne0) and \
+            not any(s_ in dom[plain[0]['block']] for (_, s_) in eq0)
         ok = ok and ok0 and calls_in(body, r'rpc::build_repl$') != []
         # order: pushes before append
         later = set()
@@ -252,9 +258,7 @@ def run(ctx):
     for f, nm in [(rt, 'tcp'), (ru, 'udp')]:
         bc = f.calls(r'rpc::build_repl$')
         END = [i for i, v in enumerate(F.adts[R + 'RpcState']['variants']) if v['name'] == 'End'][0]
-        g = f.gate_edges(lambda d, v, vals: isinstance(d, tuple) and d[0] == 'discr' and v == END and
-                         ('state' in short(d) or any(isinstance(x, tuple) and x[0] == 'modby' and x[1].endswith('rpc_parse') for x in walk(d))))
-        ok = len(bc) == 1 and bool(g) and not f.must_pass(g, [bc[0][0]])
+        ok = len(bc) == 1 and state_is_at(f, [bc[0][0]], END, 'rpc_parse')
         rep.check(r3, ok, nm + ':only-when-complete', 'build_repl is called only behind parser state == End: %s' % ok, f.loc(bc[0][0]) if bc else '')
     uv = [a for rb in ru.return_blocks() for a in alts(ru.ret_value(rb)) if isinstance(a, tuple) and a[0] == 'agg' and a[1].endswith('Option::Some')]
     rep.check(r3, len(uv) == 1 and is_call(peel(uv[0][2][0], unwraps=False), r'rpc::build_repl$'), 'udp-bare-reply', 'UDP reply = %s' % [short(a)[:60] for a in uv])
@@ -268,7 +272,7 @@ def run(ctx):
     ok = len(lw) == 1 and is_call(lv_, r'len$') and peel(lv_[2][0]) == ('param', 2)
     rep.check(r4, ok, 'length-word', 'length word <- %s' % (short(psp.argv(lw[0][0], 1)) if lw else None))
     data_it = [it for it in its if calls_in(it['value'], r'as_bytes$') != []]
-    pad_it = [it for it in its if arr_consts(it['value']) == [0]]
+    pad_it = [it for it in its if arr_consts(it['value']) == [0] or (it['op'] == 'push' and const_val(it['value']) == 0)]
     ok = len(data_it) == 1 and data_it[0]['must'] and len(pad_it) == 1 and pad_it[0]['in_loop']
     rep.check(r4, ok, 'bytes-then-pad', 'data appended once, padding byte appended in a loop: %s' % ok)
     # pad loop bound and guard
